@@ -200,6 +200,9 @@ var c18GlobalExact, c18GlobalLossy c18Accs
 // or destination the stream does not carry (the header's own effect, the Timestamp field, is C12's and is not compared).
 var c18SameLocal bool
 
+// c18NoVariant: the case is not repeated in the same-local form (long runs)
+var c18NoVariant bool
+
 func c18Case(ft byte, big bool, files [][]c18Msg, chained bool) (viol map[string]string, known map[string]string, streams [][]byte) {
 	viol, known = map[string]string{}, map[string]string{}
 	type expMsg struct {
@@ -247,25 +250,24 @@ func c18Case(ft byte, big bool, files [][]c18Msg, chained bool) (viol map[string
 		// walk the container in stream order per message type
 		cursor := map[uint16]int{}
 		single := map[uint16]bool{}
-		for _, ex := range exps[fi] {
-			got := messagesOf(f, ex.mesg)
+		gotBy := map[uint16][]reflect.Value{}
+		lastOf := map[uint16]int{}
+		for i, ex := range exps[fi] {
+			lastOf[ex.mesg] = i
+		}
+		for exi, ex := range exps[fi] {
+			got, seenM := gotBy[ex.mesg]
+			if !seenM {
+				got = messagesOf(f, ex.mesg)
+				gotBy[ex.mesg] = got
+			}
 			if !slotIsSlice(ft, ex.mesg) {
 				single[ex.mesg] = true
 			}
 			var g reflect.Value
 			if single[ex.mesg] {
 				// pointer slot: only the last message of this type is visible
-				isLast := true
-				seen := false
-				for _, later := range exps[fi] {
-					if later.want == ex.want {
-						seen = true
-						continue
-					}
-					if seen && later.mesg == ex.mesg {
-						isLast = false
-					}
-				}
+				isLast := lastOf[ex.mesg] == exi
 				if !isLast {
 					continue
 				}
@@ -358,7 +360,7 @@ func runC18(w *vx.W) {
 	states := map[uint64]struct{}{}
 	var do func(desc string, ft byte, big bool, files [][]c18Msg, chained bool, fam string)
 	do = func(desc string, ft byte, big bool, files [][]c18Msg, chained bool, fam string) {
-		if !chained && !c18SameLocal && len(files) == 1 && len(files[0]) >= 2 {
+		if !chained && !c18SameLocal && !c18NoVariant && len(files) == 1 && len(files[0]) >= 2 {
 			// the same case once more on one local type with compressed-timestamp headers (afterwards, so that the
 			// plain form is reported first)
 			defer func() {
@@ -588,6 +590,27 @@ func runC18(w *vx.W) {
 		return true
 	})
 
+	// (E) long record runs: the accumulators and whatever the decoder keeps per file after thousands of records
+	{
+		ns := []int{256, 257, 1365, 1366, 4097, 70000}
+		if !w.Quick() {
+			ns = append(ns, 255, 1023, 1024, 1025, 2731, 4095, 4096, 8193, 65535, 65536, 65537, 131073)
+		}
+		for _, n := range ns {
+			for _, big := range []bool{false, true} {
+				if !mine() {
+					continue
+				}
+				msgs := make([]c18Msg, n)
+				for i := range msgs {
+					msgs[i] = mk(variants[(i*3+i/7)%7], i%200)
+				}
+				c18NoVariant = true
+				do(fmt.Sprintf("long run of %d records", n), 4, big, [][]c18Msg{msgs}, false, "E:long-record-runs")
+				c18NoVariant = false
+			}
+		}
+	}
 	// (C) histories of 1..3 files (each a word of <=2 records), separately and chained
 	fileWords := [][]int{{0}, {1}, {3}, {0, 2}, {2, 4}, {4, 4}}
 	var hist func(prefix [][]int, depth int)
